@@ -105,7 +105,9 @@ theorem compose_atoms (first : Atom) (rest : RSym) (hw : WFR rest) (ht : rest.ha
     have hid : ch ≠ [Atom.id] := by intro e; rw [e] at hlen; simp at hlen
     by_cases hf : first.isSet = true
     · simp only [compose, hf, Bool.not_true, Bool.false_eq_true, if_false, RSym.atoms, List.append_nil, hid, WFR]
-      refine ⟨trivial, by simp, by simp [pathIsSet, hf], by simp; omega, ?_⟩
+      refine ⟨trivial, ?_⟩
+      simp only [List.all_nil, List.append_nil, ne_eq, reduceCtorEq, not_false_eq_true, true_and]
+      refine ⟨by simp [pathIsSet, hf], by simp; omega, ?_⟩
       rw [hty, pathTy_cons first ch hne]
     · have hf' : first.isSet = false := by simpa using hf
       simp only [compose, hf', Bool.not_false, if_true, RSym.atoms, hid, if_false, WFR]
@@ -601,6 +603,24 @@ theorem namesOK_all (defs : List StoreDef) : ∀ (f : U F) (t : Nat), namesOK de
   | notE e ih => intro t; exact ih t
   | unot e ih => intro t; exact ih t
   | logic o l r ihl ihr => intro t; simp [namesOK, ihl t, ihr t]
+
+/-- the symbol tables the code computes are the symbol tables of the path semantics -/
+theorem dbSigma_eq_spec (defs : List StoreDef) : dbSigma defs = dbSpecSigma defs := by
+  have key : ∀ t n, (resolve defs t (splitName n)).map (fun r => (r.ty, r.isSet)) =
+        (specPath defs t (splitName n)).map (fun p => (pathTy p, pathIsSet p)) ∧
+      (resolve defs t (splitName n)).bind RSym.linked = (specPath defs t (splitName n)).bind pathLinked := by
+    intro t n
+    obtain ⟨hp, hwf⟩ := resolve_path defs (splitName n) t (regular_all defs _ t)
+    rw [hp]
+    cases hr : resolve defs t (splitName n) with
+    | none => simp
+    | some r =>
+      obtain ⟨h1, h2, h3, _⟩ := sem_eq (F := Unit) ⟨[], []⟩ r (hwf r hr) none
+      simp [h1, h2, h3 (resolve_noTail defs _ t r hr)]
+  unfold dbSigma dbSpecSigma
+  congr 1
+  · funext t n; exact (key t n).1
+  · funext t n; exact (key t n).2
 
 /-! ### names with at most three segments resolve regularly (independently of the repair) -/
 
